@@ -18,7 +18,7 @@ from ..core import sx, parse_sx
 
 from . import C09_zlibvec as zvec
 
-QUICK_CAP = 40000          # compressed bytes; larger blocks are inflated by Python only in the quick tier
+QUICK_CAP = int(os.environ.get("VERIF_C09_CAP", "40000"))   # compressed bytes; larger blocks are inflated by Python only in the quick tier
 
 def py_inflate(blk):
     """(ok, bytes): ok iff blk is exactly one complete standard zlib stream"""
@@ -373,7 +373,8 @@ class C09(Prop):
 
     # theorems about Spec/Inflate.v (Proofs/InflateThms.v, pins in Proofs/InflatePins.v): built and audited here
     INFLATE_THEOREMS = ["inflate_never_fuel", "zlib_decode_res_total", "inflate_step_consumes", "adler32_closed_form", "adler32_fits_u32",
-                        "adler32_streaming", "lz_copy_correct", "length_codes_in_range", "distance_codes_in_range", "zlib_decode_stored",
+                        "adler32_streaming", "lz_copy_correct", "length_codes_in_range", "distance_codes_in_range",
+                        "huffman_tree_decodes_canonical_code", "huffman_canonical_code_prefix_free", "zlib_decode_stored",
                         "zlib_store_one_block", "C09_decode_encode_zlib_stored", "C09_decode_encode_zlib_stored_multipass"]
     def inflate_theorems(self):
         from ..core import sh
